@@ -45,6 +45,10 @@ def cases(ctx):
         if rng.random() < 0.3:
             t[0] = [rng.choice(['h', 'héader', 'a b', 'x<y']) + str(j) for j in range(nf)]
         c = {'fn': fn, 'table': t, 'target': rng.choice(['memory', 'file'])}
+        if fn.startswith('tee'):
+            # an earlier pass over the same tee view (abandoned after the header or a few rows, or complete) before the judged one:
+            # the target holds what the *last complete* pass wrote
+            c['prepass'] = rng.choice([None, None, 'header', 'partial', 'full'])
         if fn in ('teecsv', 'teetsv'):
             c['write_header'] = rng.random() < 0.75
             c['encoding'] = rng.choice([None, 'utf-8', 'utf-16', 'latin-1', 'utf-8-sig'])
@@ -250,6 +254,23 @@ def judge(case, ctx):
         ctx.seen('to*-raised')
         return None
     view = tee(table, t1, **kw)
+    pre = case.get('prepass')
+    if pre:
+        ctx.seen('tee-view-iterated-before:' + pre)
+        if pre == 'full':
+            same_rows(util.attempt_rows(lambda: view), 'tee pass (earlier)')
+        else:
+            it = iter(view)
+            for _ in range(1 if pre == 'header' else 3):
+                try:
+                    next(it)
+                except StopIteration:
+                    break
+                except Exception as e:  # noqa
+                    out.append({'kind': 'exception', 'fn': fn, 'detail': '%s: %s' % (type(e).__name__, e), 'at': 'earlier partial pass'})
+                    break
+            it.close()
+            del it
     if same_rows(util.attempt_rows(lambda: view), 'tee pass'):
         b1, b2 = read(t1), read(t2)
         ctx.seen('tee-bytes-compared')
